@@ -190,5 +190,71 @@ def run(chk: Check):
     config_roundtrip(chk, env)
 
 
+ATTRS = ["bold", "dim", "italic", "underline", "blink", "blink2", "reverse", "conceal", "strike", "underline2", "frame", "encircle", "overline"]
+
+
+def proj_color(c):
+    if c is None:
+        return dict(k="unset", a=0, b=0, c=0)
+    if c.is_default:
+        return dict(k="def", a=0, b=0, c=0)
+    if c.triplet is not None and c.number is None:
+        return dict(k="rgb", a=c.triplet.red, b=c.triplet.green, c=c.triplet.blue)
+    return dict(k="idx", a=c.number, b=0, c=0)
+
+
+def proj_style(st):
+    return dict(attrs=[{None: 0, True: 1, False: 2}[getattr(st, a)] for a in ATTRS], fg=proj_color(st.color), bg=proj_color(st.bgcolor),
+                link=[ord(ch) for ch in (st.link or "")])
+
+
+def random_style(rng, Style):
+    kw = {a: rng.choice([None, None, None, True, False]) for a in ATTRS}
+    def col():
+        r = rng.random()
+        if r < 0.3:
+            return None
+        if r < 0.4:
+            return "default"
+        if r < 0.6:
+            return rng.choice(["red", "bright_blue", "grey50", "dark_orange3", "black", "white"])
+        if r < 0.75:
+            return "color(%d)" % rng.randrange(256)
+        if r < 0.9:
+            return "#%02x%02x%02x" % (rng.randrange(256), rng.randrange(256), rng.randrange(256))
+        return "rgb(%d,%d,%d)" % (rng.randrange(256), rng.randrange(256), rng.randrange(256))
+    link = rng.choice([None, None, "https://example.org/a?b=c", "foo"])
+    return Style(color=col(), bgcolor=col(), link=link, **kw)
+
+
 def config_roundtrip(chk, env):
-    pass
+    """Theme -> config text -> Theme.from_file; TLC compares the projected styles name by name."""
+    Console, Style, Theme, DEFAULT_STYLES, errors, sid = env
+    recs, cases = [], []
+    if chk.replay_only:
+        return
+    for i in range(chk.pick(400, 5000)):
+        n = chk.rng.randint(1, 5)
+        styles = {"st%d.x-%d" % (i, j): random_style(chk.rng, Style) for j in range(n)}
+        inherit = chk.rng.random() < 0.3
+        rec = dict(names=sorted(styles) if not inherit else [], exc="none", before=[], after=[], namesAfter=[])
+        try:
+            th = Theme(styles, inherit=inherit)
+            back = Theme.from_file(io.StringIO(th.config), inherit=False)
+            names = sorted(th.styles)
+            rec["names"] = names
+            rec["namesAfter"] = sorted(back.styles)
+            rec["before"] = [proj_style(th.styles[k]) for k in names]
+            rec["after"] = [proj_style(back.styles[k]) if k in back.styles else proj_style(Style()) for k in names]
+        except Exception as ex:
+            rec["exc"] = type(ex).__name__
+        recs.append(rec)
+        cases.append({k: str(v) for k, v in styles.items()})
+    verdicts, st = tlc.judge("Trace_ThemeConfig", recs)
+    chk.add_tlc(st, "M3-config-roundtrip")
+    chk.traces += len(recs)
+    for case, v in zip(cases, verdicts):
+        chk.case(("config", case), True)
+        if v != "ok":
+            chk.reject(v, v, dict(kind="config", styles=case))
+    chk.sample(dict(kind="config-roundtrip", styles=cases[-1]))
